@@ -405,7 +405,7 @@ func (a *Aggregate) finish(start time.Time, outDir string, replay bool) int {
 		fmt.Println("INCONCLUSIVE:", s)
 	}
 	wall := time.Since(start).Seconds()
-	if !replay {
+	if !replay && os.Getenv("VERIF_NO_EVIDENCE") == "" {
 		a.writeEvidence(wall, len(unlisted), hit)
 	}
 	minEv := 1
